@@ -337,3 +337,18 @@ def check_spinlocks(ctx, unit):
             bad.append("unlock stores to %s, lock exchanges %s" % (w.obj, lockobj[0]))
     ctx.inst("A.simple.release", "frg::simple_spinlock::unlock", not bad, ul.loc,
              "; ".join(bad) if bad else "release store of false", ul)
+
+
+def _reassigned_before(fn, did, at_id):
+    """some assignment to the local/parameter can execute before element at_id"""
+    for x in fn.all_nodes():
+        hit = False
+        if x.kind in ("BinaryOperator", "CompoundAssignOperator") and x.get("op", "").endswith("=") and x.op not in ("==", "!=", "<=", ">="):
+            l = x.children[0].strip()
+            hit = l.kind == "DeclRefExpr" and l.d["d"] == did
+        if x.kind == "UnaryOperator" and x.op in ("++", "--"):
+            l = x.children[0].strip()
+            hit = l.kind == "DeclRefExpr" and l.d["d"] == did
+        if hit and fn.reaches(x.id, at_id):
+            return True
+    return False
